@@ -141,8 +141,10 @@ class SyncCrazyflie:
         has been connected and the TOCs have been downloaded."""
         logger.debug('Connected to %s' % link_uri)
         self._is_link_open = True
-        if self._connect_event:
-            self._connect_event.set()
+        # open_link() clears the attribute as soon as it has been woken up
+        connect_event = self._connect_event
+        if connect_event:
+            connect_event.set()
 
     def _connection_failed(self, link_uri, msg):
         """Callback when initial connection fails (i.e no Crazyflie
@@ -150,18 +152,21 @@ class SyncCrazyflie:
         logger.debug('Connection to %s failed: %s' % (link_uri, msg))
         self._is_link_open = False
         self._error_message = msg
-        if self._connect_event:
-            self._connect_event.set()
+        connect_event = self._connect_event
+        if connect_event:
+            connect_event.set()
 
     def _disconnected(self, link_uri):
         self._remove_callbacks()
         self._is_link_open = False
-        if self._disconnect_event:
-            self._disconnect_event.set()
-        if self._connect_event:
+        disconnect_event = self._disconnect_event
+        if disconnect_event:
+            disconnect_event.set()
+        connect_event = self._connect_event
+        if connect_event:
             # Disconnected before the connection was established, open_link() must not wait for ever
             self._error_message = 'Disconnected from {} before the connection was established'.format(link_uri)
-            self._connect_event.set()
+            connect_event.set()
 
     def _all_params_updated(self, link_uri):
         self._params_updated_event.set()
